@@ -538,7 +538,12 @@ fn run_kind(_: (), kind: &str, r: &mut Rng) -> Outcome {
             let qs: Vec<chrono::NaiveDateTime> = super::curvegen::queries(&spec, r).iter().take(16).map(|(t, _)| super::curvegen::ts_to_ndt(*t)).collect();
             macro_rules! go {
                 ($interp:expr, $cal:expr) => {{
-                    let o = CurveDF::try_new(nodes.clone(), $interp, &hostile_name(r, 1), Convention::Act365F, Modifier::ModF, ib, $cal).ok().expect("CurveDF::try_new");
+                    let conv = [
+                        Convention::One, Convention::OnePlus, Convention::Act365F, Convention::Act365FPlus, Convention::Act360, Convention::ThirtyE360,
+                        Convention::Thirty360, Convention::Thirty360ISDA, Convention::ActActISDA, Convention::ActActICMA, Convention::Bus252,
+                    ][r.usize(11)];
+                    let md = [Modifier::Act, Modifier::F, Modifier::ModF, Modifier::P, Modifier::ModP][r.usize(5)];
+                    let o = CurveDF::try_new(nodes.clone(), $interp, &hostile_name(r, 1), conv, md, ib, $cal).ok().expect("CurveDF::try_new");
                     let out = (|| {
                         let (j, b, js) = match paths(&o) {
                             Ok(x) => x,
